@@ -84,3 +84,26 @@ Proof.
   - constructor.
   - rewrite (emit_flat _ _ _ (flat_texts body Hbody)). exact Hout.
 Qed.
+
+(* the comment idiom: a block without labels or counter whose count is not positive disappears, whatever its body is
+   (any lines, nested blocks included, as long as the body is one: body_run finds its closing ROF) *)
+Theorem zero_block_unrolls cfg pre forw es body cls rofw skip rest syms v d_at content' :
+  Forall pline_ok pre ->
+  t_typ forw = tokText -> tok_is_pseudo forw = true -> lower_is (t_val forw) "for" = true -> Forall plain_tok es ->
+  front_symbols pre = Some syms ->
+  expand_and_evaluate (filter noncomment es) (with_constants cfg syms) = Some (EOk v) -> (v <= 0)%Z ->
+  Forall bline_ok body -> body_run body 0 None [] = Some (O, d_at, content') ->
+  Forall (fun vc => is_label (fst vc)) cls ->
+  t_typ rofw = tokText -> tok_is_pseudo rofw = true -> lower_is (t_val rofw) "for" = false -> lower_is (t_val rofw) "rof" = true ->
+  Forall plain_tok skip -> Forall nonterm rest ->
+  let out := flat_map pl_out pre ++ rest ++ [tEOF] in
+  unrolls cfg 0 out out ->
+  unrolls cfg 1 (flat_map pl_toks pre ++ (forw :: es ++ [nlt]) ++ flat_map bl_toks body ++ lbl_seg cls ++ rofw :: skip ++ (nlt :: rest ++ [tEOF])) out.
+Proof.
+  intros Hpre Hft Hfp Hff Hes Hsy Hev Hv Hbody Hrun Hcls Hrt Hrp Hrf Hrr Hskip Hrest out Hout.
+  pose proof (U_step cfg 0 pre [] forw es body cls rofw skip rest tEOF v d_at content' syms out
+                Hpre (Forall_nil _) Hft Hfp Hff Hes Hsy Hev Hbody Hrun Hcls Hrt Hrp Hrf Hrr Hskip Hrest eq_refl) as Hstep.
+  cbn [plbl_seg flat_map app map last init_list] in Hstep.
+  apply Hstep.
+  replace (Z.to_nat v) with O by lia. unfold emit_body. cbn [map]. destruct d_at; exact Hout.
+Qed.
